@@ -36,6 +36,8 @@ class Rec(WM.WcMatch):
         self.at_hook = None       # callable(count) run inside every hook (used for the cross-thread schedule)
         self.skip_none = kw.get('skip_none', False)
         self.falsy = kw.get('falsy', False)      # hooks return falsy values that are not None: they must pass through
+        if kw.get('kill_in_init'):
+            self.kill()                          # on_init is a hook like any other: a kill() issued here holds until reset()
 
     def tick(self, what, *a, can_raise=False):
         self.count += 1
@@ -295,6 +297,19 @@ def run_abort(desc):
                 break
             if nontrivial:
                 out.nontrivial(('raise', desc['tree'], desc['cfg'], j))
+        # ---- kill() from on_init -----------------------------------------------------------------------
+        w = new(kill_in_init=True)
+        out.evaluations += 1
+        first = w.match()
+        if first or not w.is_aborted() or w.get_skipped() != 0:
+            fail('kill() issued in on_init does not hold', got=len(first), aborted=w.is_aborted(), skipped=w.get_skipped())
+        elif list(w.imatch()):
+            fail('kill() issued in on_init is not sticky for imatch()')
+        else:
+            w.reset()
+            if w.match() != U_all or w.is_aborted():
+                fail('after kill() in on_init and reset() the run is not the complete result')
+        out.nontrivial(('kill-in-init', desc['tree'], desc['cfg']))
         # ---- kill() from the very hook invocation that raises (directory hooks) --------------------------
         for j in range(1, n + 1):
             if log_full[j - 1][0] not in ('vd', 'cd'):
